@@ -114,7 +114,9 @@ class C07(Property):
         (REC, "Record.extend_location"), (REC, "Record.connect_locations"),
         (REC, "Record.get_distance_between_locations"),
         (FORM, "create_candidates_from_protoclusters"), (FORM, "_merge_sets"), (FORM, "_find_hybrids"),
-        (FORM, "_find_interleaved"), (FORM, "_find_neighbouring"),
+        (FORM, "_find_interleaved"), (FORM, "_find_neighbouring"), (FORM, "_sorted_protoclusters"),
+        (FORM, "_find_interleaved_candidates"), (FORM, "_find_cross_origin_interleaved"),
+        (FORM, "_find_neighbouring_candidates"), (FORM, "_find_neighbouring_protoclusters"),
         ("antismash/common/secmet/features/protocluster.py", "Protocluster.__init__"),
         ("antismash/common/secmet/features/protocluster.py", "Protocluster.add_cds"),
         ("antismash/common/secmet/features/cdscollection.py", "CDSCollection.__lt__"),
@@ -281,6 +283,37 @@ class C07(Property):
                  for i, c in enumerate(cuts)]
         return {"len": length, "circ": True, "genes": genes, "rules": rules}
 
+    def neighbour_scenario(self, rng: random.Random) -> Dict[str, Any]:
+        """candidate-cluster layouts: one rule with a wide neighbourhood between protoclusters of a rule with a narrow
+           one, linked by neighbourhoods only, plus an unrelated protocluster elsewhere; rotations that put the origin
+           inside the wide neighbourhood make the wide protocluster span the origin while its neighbours sit at the
+           high-coordinate end"""
+        unit = rng.choice([100, 1000])
+        length = rng.choice([60, 100, 150]) * unit
+        wide, narrow = rng.choice([4, 5, 6]) * unit, rng.choice([1, 2]) * unit
+        x0 = rng.randrange(25, 45) * unit
+        xlen = rng.choice([1, 2]) * unit
+        genes = [{"loc": simple(x0, x0 + xlen, rng.choice([1, -1])), "hits": [["a", 0]], "hasres": True}]
+        # narrow protoclusters on either side whose neighbourhoods reach the wide one's but not its core
+        for side in rng.choice([[-1, 1], [-1, 1], [-1, -1, 1], [1, 1, -1], [1], [-1]]):
+            d = rng.randrange(narrow + 1, wide + narrow) if rng.random() < 0.8 else wide + narrow + rng.choice([-1, 0, 1])
+            glen = rng.choice([unit // 2, unit])
+            lo = x0 - d - glen if side < 0 else x0 + xlen + d
+            lo += rng.choice([0, 0, unit // 4, -(unit // 4)])
+            if 0 <= lo and lo + glen <= length and not any(g["loc"]["parts"][0][0] < lo + glen and lo < g["loc"]["parts"][0][1] for g in genes):
+                genes.append({"loc": simple(lo, lo + glen, rng.choice([1, -1])), "hits": [["b", 0]], "hasres": True})
+        far = (x0 + length // 2) % length
+        if rng.random() < 0.8 and far + unit <= length:
+            genes.append({"loc": simple(far, far + unit // 2), "hits": [[rng.choice("ab"), 0]], "hasres": True})
+        rng.shuffle(genes)
+        for n, g in enumerate(genes):
+            g["n"] = n
+        rules = [{"name": "wide", "cutoff": unit, "nbhd": wide, "cond": ["single", False, "a"], "sup": [], "ext": None},
+                 {"name": "narrow", "cutoff": unit, "nbhd": narrow, "cond": ["single", False, "b"], "sup": [], "ext": None}]
+        if rng.random() < 0.5:
+            rules.reverse()
+        return {"len": length, "circ": True, "genes": genes, "rules": rules, "untamed": True}
+
     def rotations(self, rng: random.Random, case: Dict[str, Any], cap: int, every: bool) -> List[int]:
         length = case["len"]
         if not case["circ"] or length < 2:
@@ -328,7 +361,7 @@ class C07(Property):
     def tame(rng: random.Random, case: Dict[str, Any]) -> None:
         """mostly keep the distances small against the ring, so that regions stay below half of it
            (the statement's own guard); one case in six is left as generated"""
-        if not case["circ"] or rng.random() < 0.16:
+        if not case["circ"] or case.pop("untamed", False) or rng.random() < 0.16:
             return
         length = case["len"]
         for r in case["rules"]:
@@ -350,8 +383,10 @@ class C07(Property):
                 case = self.small_ring(rng)
             elif r < 0.52:
                 case = self.kb_ring(rng)
-            elif r < 0.60:
+            elif r < 0.58:
                 case = self.d1_scenario(rng)
+            elif r < 0.66:
+                case = self.neighbour_scenario(rng)
             elif r < 0.78:
                 case = self.gen.targeted_case(rng)
             else:
